@@ -230,10 +230,50 @@ func (c *Ctx) cloneSkeleton() {
 	isCall := func(call *ast.CallExpr, recv, name string) bool {
 		return isRepoFunc(calleeOf(info, call), "tree", recv, name)
 	}
+	// parameters by role, whatever their order: the copy (*Tree), the branch descended through
+	// (*Edge), the copied parent (the *Node given first to ConnectNodes), and optionally the source
+	// node itself (redundant: it is the near end of the branch)
+	iCopyTree, iCopyNode, iEdge, iNode := -1, -1, -1, -1
+	{
+		sig := rec.Obj.Type().(*types.Signature)
+		var nodeIdx []int
+		for i := 0; i < sig.Params().Len(); i++ {
+			ts := sig.Params().At(i).Type().String()
+			switch {
+			case strings.HasSuffix(ts, "tree.Tree"):
+				iCopyTree = i
+			case strings.HasSuffix(ts, "tree.Edge"):
+				iEdge = i
+			case strings.HasSuffix(ts, "tree.Node"):
+				nodeIdx = append(nodeIdx, i)
+			}
+		}
+		for _, call := range callsIn(rec.Decl.Body, false) {
+			if isCall(call, "Tree", "ConnectNodes") && len(call.Args) == 2 {
+				for _, i := range nodeIdx {
+					if identObj(info, call.Args[0]) == paramObj(info, rec.Decl, i) {
+						iCopyNode = i
+					}
+				}
+			}
+		}
+		for _, i := range nodeIdx {
+			if i != iCopyNode {
+				iNode = i
+			}
+		}
+	}
+	argAt := func(call *ast.CallExpr, i int) ast.Expr {
+		if i < 0 || i >= len(call.Args) {
+			return nil
+		}
+		return call.Args[i]
+	}
+	nParams := rec.Obj.Type().(*types.Signature).Params().Len()
 	// --- copyTreeRecur(copytree, copynode, node, edge)
 	{
 		name := "tree.Tree.copyTreeRecur"
-		pCopyTree, pCopyNode, pEdge := paramObj(info, rec.Decl, 0), paramObj(info, rec.Decl, 1), paramObj(info, rec.Decl, 3)
+		pCopyTree, pCopyNode, pEdge := paramObj(info, rec.Decl, iCopyTree), paramObj(info, rec.Decl, iCopyNode), paramObj(info, rec.Decl, iEdge)
 		o := c.localExpansions(info, rec.Decl.Body)
 		// locals bound to call results
 		resOf := map[types.Object]*ast.CallExpr{}
@@ -297,12 +337,12 @@ func (c *Ctx) cloneSkeleton() {
 			_ = rs
 			elemKey := ""
 			okRec := false
-			if len(recurCall.Args) == 4 {
-				cont, isElem := c.loopElement(info, rec.Decl.Body, recurCall, recurCall.Args[3], o)
-				elemKey = c.canon(info, recurCall.Args[3], o)
+			if len(recurCall.Args) == nParams && argAt(recurCall, iEdge) != nil && argAt(recurCall, iCopyTree) != nil && argAt(recurCall, iCopyNode) != nil {
+				cont, isElem := c.loopElement(info, rec.Decl.Body, recurCall, argAt(recurCall, iEdge), o)
+				elemKey = c.canon(info, argAt(recurCall, iEdge), o)
 				okRec = isElem && cont == childKey+".br" &&
-					identObj(info, recurCall.Args[0]) == pCopyTree && isResOf(recurCall.Args[1], copyNodeCall) &&
-					c.canon(info, recurCall.Args[2], o) == childKey
+					identObj(info, argAt(recurCall, iCopyTree)) == pCopyTree && isResOf(argAt(recurCall, iCopyNode), copyNodeCall) &&
+					(iNode < 0 || c.canon(info, argAt(recurCall, iNode), o) == childKey)
 			}
 			c.Check(okRec, "SKELETON", name+"/recursion", recurCall.Pos(), "recurses over the child's branches in order with (copy, copied child, child, branch)",
 				"the recursion must range over the child's own branches and pass (copytree, copied child, child, that branch); got "+c.src(recurCall)).Clause = clause
@@ -387,12 +427,12 @@ func (c *Ctx) cloneSkeleton() {
 				}
 				_ = rs
 				good, elemKey := false, ""
-				if len(call.Args) == 4 {
-					cont, isElem := c.loopElement(info, fi.Decl.Body, call, call.Args[3], o)
-					elemKey = c.canon(info, call.Args[3], o)
+				if len(call.Args) == nParams && argAt(call, iEdge) != nil && argAt(call, iCopyTree) != nil && argAt(call, iCopyNode) != nil {
+					cont, isElem := c.loopElement(info, fi.Decl.Body, call, argAt(call, iEdge), o)
+					elemKey = c.canon(info, argAt(call, iEdge), o)
 					good = isElem && cont == srcRootKey+".br" &&
-						identObj(info, call.Args[0]) == newTreeObj && identObj(info, call.Args[1]) == rootObj &&
-						c.canon(info, call.Args[2], o) == srcRootKey
+						identObj(info, argAt(call, iCopyTree)) == newTreeObj && identObj(info, argAt(call, iCopyNode)) == rootObj &&
+						(iNode < 0 || c.canon(info, argAt(call, iNode), o) == srcRootKey)
 				}
 				c.Check(good, "SKELETON", name+"/descend", call.Pos(), "descends over the branches of the copied root in order with (copy, root copy, source root, branch)",
 					"the descent must range over the branches of the node whose copy is the new root and pass (copy, root copy, that node, branch); got "+c.src(call)).Clause = clause
